@@ -122,6 +122,7 @@ Proof.
   induction ips as [|x rest IH]; intros idx w HW Hl; [done|]. cbn [sync_ips].
   destruct (by_ip (w_ipam w) x) as [e|] eqn:Eb; [|by apply IH].
   destruct (Keys.is_empty (e_key e)) eqn:Ee; [|by apply IH].
+  destruct (existsb _ (by_key (w_ipam w) (pod_key p))); [by apply IH|].
   apply IH; [|done]. by apply winv_sync_alloc.
 Qed.
 
